@@ -404,34 +404,58 @@ func init() {
 			return c
 		}
 	}
+	pktFixed := func(entry string, socks bool) func() []Case {
+		return func() []Case {
+			var cs []Case
+			for _, a := range addrCorpus() {
+				if len(a) > 300 {
+					continue
+				}
+				pkt := a
+				if socks {
+					pkt = append([]byte{0, 0, 0}, a...)
+				}
+				for _, front := range []int{0, 5} {
+					buf := append(append(make([]byte, front), pkt...), 0xcc, 0xcc)
+					cs = append(cs, Case{Entry: entry, Pre: true, Hex: hx(buf), PS: front, PL: len(pkt), Flag: true})
+				}
+			}
+			if socks { // shorter than the 3-byte RSV/FRAG header
+				for n := 0; n < 3; n++ {
+					cs = append(cs, Case{Entry: entry, Pre: true, Hex: hx(make([]byte, 8)), PS: 2, PL: n, Flag: true})
+				}
+			}
+			return cs
+		}
+	}
 	src := func(c Case) netip.AddrPort {
 		if c.Flag {
 			return serverAP
 		}
 		return netip.MustParseAddrPort("198.51.100.7:9")
 	}
-	register(engine{name: "noneserver", share: 40, gen: pktGen("noneserver", false),
+	register(engine{name: "noneserver", share: 40, gen: pktGen("noneserver", false), fixed: pktFixed("noneserver", false),
 		impl: func(c Case) string {
 			var u direct.ShadowsocksNonePacketServerUnpacker
 			a, ps, pl, err := u.UnpackInPlace(c.bytes(), src(c), c.PS, c.PL)
 			return okOrErr(err, fmt.Sprintf("%s %d %d", renderAddr(a), ps, pl))
 		},
 		line: func(c Case) string { return fmt.Sprintf("noneserver %d %d %s", c.PS, c.PL, hexf(c.bytes())) }})
-	register(engine{name: "noneclient", share: 40, gen: pktGen("noneclient", false),
+	register(engine{name: "noneclient", share: 40, gen: pktGen("noneclient", false), fixed: pktFixed("noneclient", false),
 		impl: func(c Case) string {
 			u := direct.NewShadowsocksNonePacketClientUnpacker(serverAP)
 			ap, ps, pl, err := u.UnpackInPlace(c.bytes(), src(c), c.PS, c.PL)
 			return okOrErr(err, fmt.Sprintf("%s %d %d", renderAP(ap), ps, pl))
 		},
 		line: func(c Case) string { return fmt.Sprintf("noneclient %s %d %d %s", b01(c.Flag), c.PS, c.PL, hexf(c.bytes())) }})
-	register(engine{name: "s5server", share: 40, gen: pktGen("s5server", true),
+	register(engine{name: "s5server", share: 40, gen: pktGen("s5server", true), fixed: pktFixed("s5server", true),
 		impl: func(c Case) string {
 			var u direct.Socks5PacketServerUnpacker
 			a, ps, pl, err := u.UnpackInPlace(c.bytes(), src(c), c.PS, c.PL)
 			return okOrErr(err, fmt.Sprintf("%s %d %d", renderAddr(a), ps, pl))
 		},
 		line: func(c Case) string { return fmt.Sprintf("s5server %d %d %s", c.PS, c.PL, hexf(c.bytes())) }})
-	register(engine{name: "s5client", share: 40, gen: pktGen("s5client", true),
+	register(engine{name: "s5client", share: 40, gen: pktGen("s5client", true), fixed: pktFixed("s5client", true),
 		impl: func(c Case) string {
 			u := direct.NewSocks5PacketClientUnpacker(serverAP)
 			ap, ps, pl, err := u.UnpackInPlace(c.bytes(), src(c), c.PS, c.PL)
